@@ -262,6 +262,8 @@ func (l *leaderEpochCache) flush() error {
 	if l.checkpointFile == "" {
 		return nil
 	}
+	defer crashPoint("epoch.flush.after")
+	crashPoint("epoch.flush.before")
 	b := new(bytes.Buffer)
 	if _, err := b.WriteString(fmt.Sprintf("%d\n", leaderEpochFileV0)); err != nil {
 		return err
